@@ -967,13 +967,15 @@ _OPS_FUNCS = ["Alignment.__getitem__", "ArrayAlignment.__getitem__", "Aligned.__
 BOUNDED = {
     "ops": {
         "gen": gen_ops, "contract": contract_history("ops"), "functions": _OPS_FUNCS,
-        "bound": "depth 1, both classes per case: 2 rows x length 0..3 (thorough 0..4) dna, ALL gap layouts over a fixed "
-                 "residue fill with degenerates; thorough adds a second dna fill, rna, protein (length 1..3) and 3 rows "
-                 "x length 1..2; every slice a,b in [-L-1,L+1]+None, strides, every int index, rc, 12 take_positions, "
-                 "7 take_seqs, omit_gap_pos (5 fractions x motif 1-3), no_degenerates (motif 1-3 x allow_gap), "
-                 "filtered (5 predicates x motif 1-2), get_degapped_relative_to each row, sample with given indices "
-                 "(8 recipes), + (self, slice of self, fresh alignment with reordered names), to_type, to_rna, to_dna; "
-                 "plus seeded random alignments 2-4 rows x length 5-8 over ACGT-NRY(?) with the reduced slice set",
+        "bound": "depth 1, both classes: 2 rows x ALL gap layouts over a fixed residue fill with degenerates, dna "
+                 "length 0..2 with every slice a,b in [-L-1,L+1]+None and strides, length 3 with 9 slices (thorough: "
+                 "length 0..3 every slice, length 4 every non-negative slice pair + each negative bound, a second dna "
+                 "fill length 1..3, rna and protein length 1..3, 3 rows length 1..2; quick: rna/protein length 2, 3 rows "
+                 "length 1); per input every int index, rc, 12 take_positions, 7 take_seqs, omit_gap_pos (5 fractions "
+                 "x motif 1-3), no_degenerates (motif 1-3 x allow_gap), filtered (5 predicates x motif 1-2), "
+                 "get_degapped_relative_to each row, sample with given indices (8 recipes), + (self, slice of self, "
+                 "new alignment with reordered names), to_type, to_rna, to_dna; plus 8 (thorough 120) seeded random "
+                 "alignments 2-4 rows x length 5-8 over ACGT-NRY(?) / protein symbols",
         "rule": "a case = (class, moltype, rows, [op]); both classes are enumerated for every input; non-trivial when a result has "
                 "length > 0; distinct by hash of the case",
     },
